@@ -1698,10 +1698,12 @@ bool SchindelhauerTMCG::TMCG_VerifyStackEquality
 	out << TMCG_SecurityLevel << std::endl;
 	if (s.size() != s2.size())
 		return false;
-	// check whether the elements of the shuffled stack belong to the group
+	// check whether the elements of both stacks belong to the group
 	for (size_t i = 0; i < s2.size(); i++)
 	{
 		if (!vtmf->CheckElement(s2[i].c_1) || !vtmf->CheckElement(s2[i].c_2))
+			return false;
+		if (!vtmf->CheckElement(s[i].c_1) || !vtmf->CheckElement(s[i].c_2))
 			return false;
 	}
 	mpz_init(foo), mpz_init(bar);
